@@ -260,9 +260,16 @@ func ToXML(sn schema.Node, node datanode.DataNode) []byte {
 	var b bytes.Buffer
 	enc := xml.NewEncoder(&b)
 
-	enc.EncodeToken(xml.StartElement{Name: xml.Name{Local: node.YangDataName()}})
+	// The root of a decoded tree has the name of the schema's root, none: an
+	// element without a name is not written (and its children would stand
+	// there without a root). The decoder does not look at the name.
+	name := node.YangDataName()
+	if name == "" {
+		name = "data"
+	}
+	enc.EncodeToken(xml.StartElement{Name: xml.Name{Local: name}})
 	encodeXmlChildren(enc, sn, node)
-	enc.EncodeToken(xml.EndElement{Name: xml.Name{Local: node.YangDataName()}})
+	enc.EncodeToken(xml.EndElement{Name: xml.Name{Local: name}})
 
 	enc.Flush()
 	return b.Bytes()
